@@ -409,4 +409,935 @@ theorem toText_no_overrun (wide : Bool) (acl : Acl) (flags : Nat)
       · omega
       · simp
 
+/-! ### Characteristic equations of the parser loops -/
+
+theorem splitEntry_eq (wide : Bool) (r : List Ch) :
+    splitEntry wide r =
+      match nextField wide r with
+      | .error e => .error e
+      | .ok nf =>
+        if nf.sep = 58 then
+          match splitEntry wide nf.rest with
+          | .error e => .error e
+          | .ok (fs, rest) => .ok (nf.field :: fs, rest)
+        else .ok ([nf.field], nf.rest) := by
+  rw [splitEntry]
+  split <;> rename_i h <;> simp only [h]
+  split <;> rfl
+
+/-- One iteration of the parser's `while` loop. -/
+def loopStep (wide : Bool) (wantType : Nat) (fs : List Field) (rest : List Ch) (o : ParseOut)
+    (k : List Ch → ParseOut → Except Fault ParseOut) : Except Fault ParseOut :=
+  match parseFields wide fs wantType with
+  | .error e => .error e
+  | .ok .comment => k rest o
+  | .ok .skip => k rest { o with status := .warn, skipped := o.skipped + 1 }
+  | .ok (.entry type p tag id name) =>
+    match nameOf wide name with
+    | .error e => .error e
+    | .ok nm =>
+      match addEntry o.acl type p tag id nm with
+      | (acl', st) =>
+        if st = .failed ∨ st = .fatal then .ok { o with acl := acl', status := st, added := o.added + 1 }
+        else k rest { o with acl := acl', status := if st ≠ .ok then .warn else o.status, added := o.added + 1 }
+
+theorem parseLoop_nil (wide : Bool) (wantType : Nat) (o : ParseOut) :
+    parseLoop wide wantType [] o = if wide then .error .oob else .ok o := by
+  rw [parseLoop]
+
+theorem parseLoop_cons (wide : Bool) (wantType : Nat) (c : Ch) (t : List Ch) (o : ParseOut) :
+    parseLoop wide wantType (c :: t) o =
+      if c = 0 then .ok o else
+      match splitEntry wide (c :: t) with
+      | .error e => .error e
+      | .ok (fs, rest) => loopStep wide wantType fs rest o (parseLoop wide wantType) := by
+  rw [parseLoop]
+  split
+  · rfl
+  · split <;> rename_i h <;> simp only [h, loopStep]
+    split <;> (rename_i heq; rw [heq]) <;> try rfl
+
+/-! ### Fields: from pointers to bodies -/
+
+/-- The characters of a field. -/
+def bodyOf (f : Field) : List Ch := f.s.take f.len
+
+def obody : Option Field → List Ch
+  | none => []
+  | some f => bodyOf f
+
+/-- A field lies inside the text; a wide field pointer never points beyond the terminator. -/
+def FieldOK (wide : Bool) (f : Field) : Prop := f.len ≤ f.s.length ∧ (wide = true → f.s ≠ [])
+
+def OFieldOK (wide : Bool) : Option Field → Prop
+  | none => True
+  | some f => FieldOK wide f
+
+@[simp] theorem obody_none : obody none = [] := rfl
+@[simp] theorem OFieldOK_none (wide : Bool) : OFieldOK wide none = True := rfl
+
+theorem field_split {wide : Bool} {f : Field} (h : FieldOK wide f) :
+    f.s = bodyOf f ++ f.s.drop f.len ∧ (bodyOf f).length = f.len := by
+  unfold bodyOf
+  refine ⟨(List.take_append_drop _ _).symm, ?_⟩
+  rw [List.length_take]; exact Nat.min_eq_left h.1
+
+theorem body_ok {wide : Bool} {f : Field} (h : FieldOK wide f) : f.body = .ok (bodyOf f) := by
+  simp [Field.body, bodyOf, h.1]
+
+theorem fbody_ok {wide : Bool} {o : Option Field} (h : OFieldOK wide o) : fbody o = .ok (obody o) := by
+  cases o with
+  | none => rfl
+  | some f => exact body_ok h
+
+theorem flen_eq {wide : Bool} {o : Option Field} (h : OFieldOK wide o) : flen o = (obody o).length := by
+  cases o with
+  | none => rfl
+  | some f => exact (field_split h).2.symm
+
+theorem rd_ok {wide : Bool} {f : Field} (h : FieldOK wide f) (hl : wide = true ∨ f.len > 0) :
+    ∃ c, rd f.s 0 = .ok c ∧ f.s.head? = some c ∧ (f.len > 0 → (bodyOf f).head? = some c) := by
+  have hne : f.s ≠ [] := by
+    rcases hl with hl | hl
+    · exact h.2 hl
+    · intro he; have := h.1; rw [he] at this; simp at this; omega
+  match hs : f.s, hne with
+  | c :: t, _ =>
+    refine ⟨c, by simp [rd], by simp, ?_⟩
+    intro hp
+    unfold bodyOf; rw [hs]
+    match hlen : f.len, hp with
+    | n + 1, _ => simp
+
+theorem matchAt_ok {wide : Bool} {f : Field} (h : FieldOK wide f) (off : Nat) (lit : String)
+    (hl : off + lit.length ≤ f.len) :
+    matchAt f off lit = .ok (decide (((bodyOf f).drop off).take lit.length = str lit)) := by
+  have h1 := h.1
+  have : off + lit.length ≤ f.s.length := by omega
+  simp only [matchAt, this, if_true]
+  congr 1
+  unfold bodyOf
+  rw [List.drop_take, List.take_take]
+  rw [Nat.min_eq_left (by omega)]
+
+
+/-! ### The parser body on field bodies -/
+
+def isDefaultSpec (b : List Ch) : Bool :=
+  match b with
+  | [] => false
+  | c :: _ => c = 100 ∧ (b.length = 1 ∨ (b.length ≥ 7 ∧ (b.drop 1).take 6 = str "efault"))
+
+def wordTag (b : List Ch) (n : Nat) (rest : String) (tag : Nat) : Nat :=
+  if b.length = 1 then tag
+  else if b.length = n then (if (b.drop 1).take (n - 1) = str rest then tag else 0)
+  else 0
+
+def posixTagSpec (b : List Ch) : Nat :=
+  match b with
+  | [] => 0
+  | c :: _ =>
+    if c = 117 then wordTag b 4 "ser" tagUserObj
+    else if c = 103 then wordTag b 5 "roup" tagGroupObj
+    else if c = 111 then wordTag b 5 "ther" tagOther
+    else if c = 109 then wordTag b 4 "ask" tagMask
+    else 0
+
+theorem isDefault_ok {wide : Bool} {f : Field} (h : FieldOK wide f) :
+    isDefault wide f = .ok (isDefaultSpec (bodyOf f)) := by
+  have hs := field_split h
+  unfold isDefault
+  by_cases h0 : f.len = 0
+  · have hb : bodyOf f = [] := by
+      have := hs.2; rw [h0] at this; exact List.length_eq_zero_iff.mp this
+    cases wide with
+    | false => simp [h0, hb, isDefaultSpec, pure, Except.pure]
+    | true =>
+      obtain ⟨c, hrd, _, _⟩ := rd_ok h (Or.inl rfl)
+      simp only [Bool.true_eq_false, not_false_eq_true, h0, and_true, if_false, bind, Except.bind, hrd,
+        not_true_eq_false, false_and]
+      simp only [hb, isDefaultSpec]
+      by_cases hc : c = 100 <;> simp [hc, pure, Except.pure]
+  · obtain ⟨c, hrd, _, hhead⟩ := rd_ok h (Or.inr (by omega))
+    have hhead := hhead (by omega)
+    match hb : bodyOf f, hhead with
+    | c' :: t, hh =>
+      simp only [List.head?_cons, Option.some.injEq] at hh
+      subst hh
+      have hlen : f.len = t.length + 1 := by rw [← hs.2, hb]; rfl
+      simp only [h0, and_false, if_false, bind, Except.bind, hrd, isDefaultSpec]
+      by_cases hc : c' = 100
+      · simp only [hc, ne_eq, not_true_eq_false, if_false, true_and]
+        by_cases h1 : f.len = 1
+        · have ht : t = [] := List.length_eq_zero_iff.mp (by omega)
+          simp [h1, ht, pure, Except.pure]
+        · have ht : t ≠ [] := by intro ht; rw [ht] at hlen; simp at hlen; omega
+          by_cases h7 : f.len ≥ 7
+          · have h6 : 6 ≤ t.length := by omega
+            rw [matchAt_ok h 1 "efault" (by simp [String.length]; omega)]
+            simp [h1, h7, hb, ht, h6, pure, Except.pure, String.length]
+          · have h6 : ¬ 6 ≤ t.length := by omega
+            have h6' : ¬ 7 ≤ t.length + 1 := by omega
+            simp [h1, h7, ht, h6, h6', pure, Except.pure]
+      · simp [hc, pure, Except.pure]
+
+
+theorem word_ok {wide : Bool} {f : Field} (h : FieldOK wide f) (n : Nat) (rest : String) (tag : Nat)
+    (hn : 1 + rest.length = n) :
+    (if f.len = 1 then pure tag
+     else if f.len = n then (do if (← matchAt f 1 rest) then pure tag else pure 0)
+     else pure 0 : Except Fault Nat) = .ok (wordTag (bodyOf f) n rest tag) := by
+  have hs := (field_split h).2
+  unfold wordTag
+  rw [hs]
+  by_cases h1 : f.len = 1
+  · simp [h1, pure, Except.pure]
+  · by_cases h2 : f.len = n
+    · rw [if_neg h1, if_pos h2, if_neg h1, if_pos h2, matchAt_ok h 1 rest (by omega)]
+      have : n - 1 = rest.length := by omega
+      rw [this]
+      simp only [bind, Except.bind, pure, Except.pure, decide_eq_true_eq]
+      split <;> rfl
+    · simp [h1, h2, pure, Except.pure]
+
+theorem posixTag_ok {wide : Bool} {f : Field} (h : FieldOK wide f) (hl : f.len > 0) :
+    posixTag f = .ok (posixTagSpec (bodyOf f)) := by
+  obtain ⟨c, hrd, _, hhead⟩ := rd_ok h (Or.inr hl)
+  have hhead := hhead hl
+  unfold posixTag
+  match hb : bodyOf f, hhead with
+  | c' :: t, hh =>
+    simp only [List.head?_cons, Option.some.injEq] at hh
+    subst hh
+    simp only [bind, Except.bind, hrd, posixTagSpec]
+    rw [← hb]
+    have w1 := word_ok h 4 "ser" tagUserObj (by decide)
+    have w2 := word_ok h 5 "roup" tagGroupObj (by decide)
+    have w3 := word_ok h 5 "ther" tagOther (by decide)
+    have w4 := word_ok h 4 "ask" tagMask (by decide)
+    simp only [bind, Except.bind] at w1 w2 w3 w4
+    by_cases h1 : c' = 117
+    · simp only [h1, if_true]; exact w1
+    by_cases h2 : c' = 103
+    · simp only [h1, h2, if_true, if_false]; exact w2
+    by_cases h3 : c' = 111
+    · simp only [h1, h2, h3, if_true, if_false]; exact w3
+    by_cases h4 : c' = 109
+    · simp only [h1, h2, h3, h4, if_true, if_false]; exact w4
+    simp [h1, h2, h3, h4, pure, Except.pure]
+
+
+/-- What one text entry turns into, with the name as its characters. -/
+inductive PSpec
+  | comment
+  | skip
+  | entry (type permset tag : Nat) (id : Int) (name : List Ch)
+  deriving DecidableEq, Repr
+
+def Parsed.toSpec : Parsed → PSpec
+  | .comment => .comment
+  | .skip => .skip
+  | .entry t p g i nm => .entry t p g i (obody nm)
+
+def Parsed.NameOK (wide : Bool) : Parsed → Prop
+  | .entry _ _ _ _ nm => OFieldOK wide nm
+  | _ => True
+
+def posixIdCore (fields : Nat) (b : Nat → List Ch) (n : Nat) : Int :=
+  let id := isintOr (b (n + 1)) (-1)
+  if id = -1 ∧ fields > n + 3 then isintOr (b (n + 3)) id else id
+
+def posixOtherMaskCore (wide : Bool) (fields : Nat) (b : Nat → List Ch) (n type tag : Nat) (id : Int) :
+    PSpec :=
+  let f1 := b (n + 1)
+  let called := fields = n + 2 ∧ f1.length > 0
+  let r1 := if called then ismode wide f1 0 else (0, false)
+  let sol := called ∧ r1.2
+  if ¬ sol ∧ fields = n + 3 ∧ f1.length > 0 then .skip else
+  let r2 := if r1.1 = 0 then ismode wide (b (if sol then n + 1 else n + 2)) r1.1 else (r1.1, true)
+  if r2.2 then .entry type r2.1 tag id [] else .skip
+
+def posixUserGroupCore (wide : Bool) (b : Nat → List Ch) (n type tag : Nat) (id : Int) : PSpec :=
+  let f1 := b (n + 1)
+  let named := id ≠ -1 ∨ f1.length > 0
+  let tag' := if named then (if tag = tagUserObj then tagUser else tagGroup) else tag
+  let name := if named then f1 else []
+  let r2 := ismode wide (b (n + 2)) 0
+  if r2.2 then .entry type r2.1 tag' id name else .skip
+
+/-- `parsePosixRest` on field bodies (`b i` is the body of `field[i]`, empty for a
+blank field; `fields` is the number of fields seen). -/
+def posixRestCore (wide : Bool) (fields : Nat) (b : Nat → List Ch) (n type : Nat) : PSpec :=
+  let id := posixIdCore fields b n
+  if (b n).length = 0 then .skip else
+  let tag := posixTagSpec (b n)
+  if tag = tagOther ∨ tag = tagMask then posixOtherMaskCore wide fields b n type tag id
+  else if tag = tagUserObj ∨ tag = tagGroupObj then posixUserGroupCore wide b n type tag id
+  else .skip
+
+/-- `parsePosix` on field bodies. -/
+def posixCore (wide : Bool) (fields : Nat) (b : Nat → List Ch) (wantType : Nat) : PSpec :=
+  if isDefaultSpec (b 0) then
+    if (b 0).length > 7 then
+      posixRestCore wide fields (fun i => if i = 0 then (b 0).drop 7 else b i) 0 typeDefault
+    else posixRestCore wide fields b 1 typeDefault
+  else posixRestCore wide fields b 0 wantType
+
+theorem drop7_ok {wide : Bool} {f : Field} (h : FieldOK wide f) (h7 : f.len > 7) :
+    FieldOK wide ⟨f.s.drop 7, f.len - 7⟩ ∧ bodyOf ⟨f.s.drop 7, f.len - 7⟩ = (bodyOf f).drop 7 := by
+  have h1 := h.1
+  refine ⟨⟨by simp; omega, fun _ => ?_⟩, ?_⟩
+  · intro he
+    have := congrArg List.length he
+    simp at this; omega
+  · simp only [bodyOf]
+    rw [List.drop_take]
+
+theorem posixId_spec (wide : Bool) (fields : Nat) (fld : Nat → Option Field) (n : Nat)
+    (hf : ∀ i, OFieldOK wide (fld i)) :
+    posixId fields fld n = .ok (posixIdCore fields (fun i => obody (fld i)) n) := by
+  unfold posixId posixIdCore
+  simp only [bind, Except.bind, pure, Except.pure, fbody_ok (hf _)]
+  split <;> rfl
+
+theorem posixOtherMask_spec (wide : Bool) (fields : Nat) (fld : Nat → Option Field) (n type tag : Nat)
+    (id : Int) (hf : ∀ i, OFieldOK wide (fld i)) :
+    ∃ p, posixOtherMask wide fields fld n type tag id = .ok p ∧
+      p.toSpec = posixOtherMaskCore wide fields (fun i => obody (fld i)) n type tag id ∧
+      p.NameOK wide := by
+  unfold posixOtherMask posixOtherMaskCore
+  simp only [bind, Except.bind, pure, Except.pure, fbody_ok (hf _), flen_eq (hf _)]
+  by_cases hc : fields = n + 2 ∧ (obody (fld (n + 1))).length > 0
+  · have hn3 : ¬ fields = n + 3 := by omega
+    generalize hr : ismode wide (obody (fld (n + 1))) 0 = r1
+    obtain ⟨p1, ok1⟩ := r1
+    cases ok1 with
+    | true =>
+      by_cases hp : p1 = 0
+      · subst hp
+        simp [hc, hn3, hr, Parsed.toSpec, Parsed.NameOK, obody_none, OFieldOK_none]
+      · simp [hc, hn3, hr, hp, Parsed.toSpec, Parsed.NameOK, obody_none, OFieldOK_none]
+    | false =>
+      by_cases hp : p1 = 0
+      · subst hp
+        generalize hr2 : ismode wide (obody (fld (n + 2))) 0 = r2
+        obtain ⟨p2, ok2⟩ := r2
+        cases ok2 <;> simp [hc, hn3, hr, hr2, Parsed.toSpec, Parsed.NameOK, obody_none, OFieldOK_none]
+      · simp [hc, hn3, hr, hp, Parsed.toSpec, Parsed.NameOK, obody_none, OFieldOK_none]
+  · by_cases h3 : fields = n + 3 ∧ (obody (fld (n + 1))).length > 0
+    · simp [hc, h3, Parsed.toSpec, Parsed.NameOK, obody_none, OFieldOK_none]
+    · generalize hr2 : ismode wide (obody (fld (n + 2))) 0 = r2
+      obtain ⟨p2, ok2⟩ := r2
+      cases ok2 <;> simp [hc, h3, hr2, Parsed.toSpec, Parsed.NameOK, obody_none, OFieldOK_none]
+
+theorem posixUserGroup_spec (wide : Bool) (fld : Nat → Option Field) (n type tag : Nat)
+    (id : Int) (hf : ∀ i, OFieldOK wide (fld i)) :
+    ∃ p, posixUserGroup wide fld n type tag id = .ok p ∧
+      p.toSpec = posixUserGroupCore wide (fun i => obody (fld i)) n type tag id ∧
+      p.NameOK wide := by
+  unfold posixUserGroup posixUserGroupCore
+  simp only [bind, Except.bind, pure, Except.pure, fbody_ok (hf _), flen_eq (hf _)]
+  generalize hr2 : ismode wide (obody (fld (n + 2))) 0 = r2
+  obtain ⟨p2, ok2⟩ := r2
+  have h1 := hf (n + 1)
+  by_cases hn : id ≠ -1 ∨ (obody (fld (n + 1))).length > 0 <;>
+    cases ok2 <;> simp [hn, Parsed.toSpec, Parsed.NameOK, obody_none, OFieldOK_none, h1]
+
+theorem parsePosixRest_spec (wide : Bool) (fields : Nat) (fld : Nat → Option Field) (n type : Nat)
+    (hf : ∀ i, OFieldOK wide (fld i)) :
+    ∃ p, parsePosixRest wide fields fld n type = .ok p ∧
+      p.toSpec = posixRestCore wide fields (fun i => obody (fld i)) n type ∧ p.NameOK wide := by
+  unfold parsePosixRest posixRestCore
+  simp only [bind, Except.bind, pure, Except.pure, posixId_spec wide fields fld n hf, flen_eq (hf _)]
+  by_cases h0 : (obody (fld n)).length = 0
+  · simp [h0, Parsed.toSpec, Parsed.NameOK]
+  · simp only [h0, if_false]
+    obtain ⟨fn, hfn⟩ : ∃ fn, fld n = some fn := by
+      cases h : fld n with
+      | none => simp [h] at h0
+      | some fn => exact ⟨fn, rfl⟩
+    have hok : FieldOK wide fn := by have := hf n; rw [hfn] at this; exact this
+    have hlen : fn.len > 0 := by
+      have := (field_split hok).2; simp only [hfn, obody] at h0; omega
+    have hb : obody (some fn) = bodyOf fn := rfl
+    simp only [hfn, posixTag_ok hok hlen, hb]
+    generalize posixTagSpec (bodyOf fn) = tag
+    (
+      by_cases ht1 : tag = tagOther ∨ tag = tagMask
+      · simp only [ht1, if_true]
+        exact posixOtherMask_spec wide fields fld n type tag _ hf
+      · simp only [ht1, if_false]
+        by_cases ht2 : tag = tagUserObj ∨ tag = tagGroupObj
+        · simp only [ht2, if_true]
+          exact posixUserGroup_spec wide fld n type tag _ hf
+        · simp [ht2, Parsed.toSpec, Parsed.NameOK]
+    )
+
+theorem fieldAt_ok {wide : Bool} {fs : List Field} (h : ∀ f ∈ fs, FieldOK wide f) (k i : Nat) :
+    OFieldOK wide (fieldAt fs k i) := by
+  unfold fieldAt
+  split
+  · match hg : fs[i]? with
+    | none => trivial
+    | some f => exact h f (List.mem_of_getElem? hg)
+  · trivial
+
+theorem parsePosix_spec (wide : Bool) (fs : List Field) (wantType : Nat)
+    (hf : ∀ f ∈ fs, FieldOK wide f) (h0 : fs ≠ []) :
+    ∃ p, parsePosix wide fs wantType = .ok p ∧
+      p.toSpec = posixCore wide fs.length (fun i => obody (fieldAt fs 5 i)) wantType ∧
+      p.NameOK wide := by
+  obtain ⟨f0, hf0⟩ : ∃ f0, fieldAt fs 5 0 = some f0 := by
+    cases fs with
+    | nil => exact (h0 rfl).elim
+    | cons a t => exact ⟨a, by simp [fieldAt]⟩
+  have hall := fun i => fieldAt_ok hf 5 i
+  have hok0 : FieldOK wide f0 := by have := hall 0; rw [hf0] at this; exact this
+  have hb0 : obody (some f0) = bodyOf f0 := rfl
+  have hl0 : (bodyOf f0).length = f0.len := (field_split hok0).2
+  unfold parsePosix posixCore
+  simp only [hf0, bind, Except.bind, pure, Except.pure, isDefault_ok hok0, hb0, hl0]
+  cases hd : isDefaultSpec (bodyOf f0) with
+  | false =>
+    simp only [Bool.false_eq_true, if_false]
+    exact parsePosixRest_spec wide fs.length _ 0 wantType hall
+  | true =>
+    simp only [if_true]
+    by_cases h7 : f0.len > 7
+    · simp only [h7, if_true]
+      have hd7 := drop7_ok hok0 h7
+      have hf' : ∀ i, OFieldOK wide
+          ((fun i => if i = 0 then some ⟨f0.s.drop 7, f0.len - 7⟩ else fieldAt fs 5 i) i) := by
+        intro i; by_cases hi : i = 0
+        · simp only [hi, if_true]; exact hd7.1
+        · simp only [hi, if_false]; exact hall i
+      have := parsePosixRest_spec wide fs.length _ 0 typeDefault hf'
+      have he : (fun i => obody ((fun i => if i = 0 then some (⟨f0.s.drop 7, f0.len - 7⟩ : Field) else fieldAt fs 5 i) i))
+          = (fun i => if i = 0 then (bodyOf f0).drop 7 else obody (fieldAt fs 5 i)) := by
+        funext i; by_cases hi : i = 0 <;> simp [hi, obody, hd7.2]
+      rw [he] at this
+      exact this
+    · simp only [h7, if_false]
+      exact parsePosixRest_spec wide fs.length _ 1 typeDefault hall
+
+
+/-! NFSv4 branch -/
+
+def nfs4TagSpec (b : List Ch) : Nat :=
+  if b = str "user" then tagUser else if b = str "group" then tagGroup
+  else if b = str "owner@" then tagUserObj else if b = str "group@" then tagGroupObj
+  else if b = str "everyone@" then tagEveryone else 0
+
+def nfs4TypeSpec (b : List Ch) : Nat :=
+  if b = str "deny" then typeDeny else if b = str "allow" then typeAllow
+  else if b = str "audit" then typeAudit else if b = str "alarm" then typeAlarm else 0
+
+/-- A whole-field comparison: `len == strlen(lit) && memcmp(s, lit, len) == 0`. -/
+theorem matchWhole {wide : Bool} {f : Field} (h : FieldOK wide f) (lit : String)
+    (hl : f.len = lit.length) : matchAt f 0 lit = .ok (decide (bodyOf f = str lit)) := by
+  rw [matchAt_ok h 0 lit (by omega)]
+  have := (field_split h).2
+  simp only [List.drop_zero]
+  rw [List.take_of_length_le (by omega)]
+
+theorem ne_of_length {b : List Ch} {lit : String} (h : b.length ≠ lit.length) : b ≠ str lit := by
+  intro he; apply h; rw [he, str_length]
+
+theorem lit_ne : str "user" ≠ str "group" ∧ str "user" ≠ str "owner@" ∧ str "user" ≠ str "group@" ∧
+    str "user" ≠ str "everyone@" ∧ str "group" ≠ str "owner@" ∧ str "group" ≠ str "group@" ∧
+    str "group" ≠ str "everyone@" ∧ str "owner@" ≠ str "group@" ∧ str "owner@" ≠ str "everyone@" ∧
+    str "group@" ≠ str "everyone@" ∧ str "deny" ≠ str "allow" ∧ str "deny" ≠ str "audit" ∧
+    str "deny" ≠ str "alarm" ∧ str "allow" ≠ str "audit" ∧ str "allow" ≠ str "alarm" ∧
+    str "audit" ≠ str "alarm" := by decide
+
+theorem lit_ne' : str "group" ≠ str "user" ∧ str "owner@" ≠ str "user" ∧ str "group@" ≠ str "user" ∧
+    str "everyone@" ≠ str "user" ∧ str "owner@" ≠ str "group" ∧ str "group@" ≠ str "group" ∧
+    str "everyone@" ≠ str "group" ∧ str "group@" ≠ str "owner@" ∧ str "everyone@" ≠ str "owner@" ∧
+    str "everyone@" ≠ str "group@" ∧ str "allow" ≠ str "deny" ∧ str "audit" ≠ str "deny" ∧
+    str "alarm" ≠ str "deny" ∧ str "audit" ≠ str "allow" ∧ str "alarm" ≠ str "allow" ∧
+    str "alarm" ≠ str "audit" := by decide
+
+theorem nfs4Tag_ok {wide : Bool} {f : Field} (h : FieldOK wide f) :
+    nfs4Tag f = .ok (nfs4TagSpec (bodyOf f)) := by
+  have hs := (field_split h).2
+  unfold nfs4Tag nfs4TagSpec
+  have l1 : "user".length = 4 := by decide
+  have l2 : "group".length = 5 := by decide
+  have l3 : "owner@".length = 6 := by decide
+  have l4 : "group@".length = 6 := by decide
+  have l5 : "everyone@".length = 9 := by decide
+  have e1 : f.len = 4 → matchAt f 0 "user" = .ok (decide (bodyOf f = str "user")) :=
+    fun hh => matchWhole h "user" (by omega)
+  have e2 : f.len = 5 → matchAt f 0 "group" = .ok (decide (bodyOf f = str "group")) :=
+    fun hh => matchWhole h "group" (by omega)
+  have e3 : f.len = 6 → matchAt f 0 "owner@" = .ok (decide (bodyOf f = str "owner@")) :=
+    fun hh => matchWhole h "owner@" (by omega)
+  have e4 : f.len = 6 → matchAt f 0 "group@" = .ok (decide (bodyOf f = str "group@")) :=
+    fun hh => matchWhole h "group@" (by omega)
+  have e5 : f.len = 9 → matchAt f 0 "everyone@" = .ok (decide (bodyOf f = str "everyone@")) :=
+    fun hh => matchWhole h "everyone@" (by omega)
+  have n1 : f.len ≠ 4 → bodyOf f ≠ str "user" := fun hh => ne_of_length (by omega)
+  have n2 : f.len ≠ 5 → bodyOf f ≠ str "group" := fun hh => ne_of_length (by omega)
+  have n3 : f.len ≠ 6 → bodyOf f ≠ str "owner@" := fun hh => ne_of_length (by omega)
+  have n4 : f.len ≠ 6 → bodyOf f ≠ str "group@" := fun hh => ne_of_length (by omega)
+  have n5 : f.len ≠ 9 → bodyOf f ≠ str "everyone@" := fun hh => ne_of_length (by omega)
+  generalize bodyOf f = b at *
+  by_cases h4 : f.len = 4
+  · rw [if_pos h4, e1 h4]
+    have := n2 (by omega); have := n3 (by omega); have := n4 (by omega); have := n5 (by omega)
+    by_cases hm : b = str "user" <;> simp [*, bind, Except.bind, pure, Except.pure] <;> decide
+  by_cases h5 : f.len = 5
+  · rw [if_neg h4, if_pos h5, e2 h5]
+    have := n1 (by omega); have := n3 (by omega); have := n4 (by omega); have := n5 (by omega)
+    by_cases hm : b = str "group" <;> simp [*, bind, Except.bind, pure, Except.pure] <;> decide
+  by_cases h6 : f.len = 6
+  · rw [if_neg h4, if_neg h5, if_pos h6, e3 h6, e4 h6]
+    have := n1 (by omega); have := n2 (by omega); have := n5 (by omega)
+    by_cases hm : b = str "owner@"
+    · subst hm; simp [bind, Except.bind, pure, Except.pure] <;> decide
+    · by_cases hm2 : b = str "group@"
+      · subst hm2; simp [lit_ne, lit_ne', bind, Except.bind, pure, Except.pure]
+      · simp [*, bind, Except.bind, pure, Except.pure]
+  by_cases h9 : f.len = 9
+  · rw [if_neg h4, if_neg h5, if_neg h6, if_pos h9, e5 h9]
+    have := n1 (by omega); have := n2 (by omega); have := n3 (by omega); have := n4 (by omega)
+    by_cases hm : b = str "everyone@" <;> simp [*, bind, Except.bind, pure, Except.pure] <;> decide
+  · have := n1 (by omega); have := n2 (by omega); have := n3 (by omega); have := n4 (by omega)
+    have := n5 (by omega)
+    simp [*, pure, Except.pure]
+
+theorem nfs4Type_ok {wide : Bool} {o : Option Field} (h : OFieldOK wide o) :
+    nfs4Type o = .ok (nfs4TypeSpec (obody o)) := by
+  cases o with
+  | none => simp [nfs4Type, nfs4TypeSpec, pure, Except.pure]; decide
+  | some f =>
+    have h : FieldOK wide f := h
+    have hs := (field_split h).2
+    show nfs4Type (some f) = .ok (nfs4TypeSpec (bodyOf f))
+    simp only [nfs4Type, nfs4TypeSpec]
+    have l1 : "deny".length = 4 := by decide
+    have l2 : "allow".length = 5 := by decide
+    have l3 : "audit".length = 5 := by decide
+    have l4 : "alarm".length = 5 := by decide
+    have e1 : f.len = 4 → matchAt f 0 "deny" = .ok (decide (bodyOf f = str "deny")) :=
+      fun hh => matchWhole h "deny" (by omega)
+    have e2 : f.len = 5 → matchAt f 0 "allow" = .ok (decide (bodyOf f = str "allow")) :=
+      fun hh => matchWhole h "allow" (by omega)
+    have e3 : f.len = 5 → matchAt f 0 "audit" = .ok (decide (bodyOf f = str "audit")) :=
+      fun hh => matchWhole h "audit" (by omega)
+    have e4 : f.len = 5 → matchAt f 0 "alarm" = .ok (decide (bodyOf f = str "alarm")) :=
+      fun hh => matchWhole h "alarm" (by omega)
+    have n1 : f.len ≠ 4 → bodyOf f ≠ str "deny" := fun hh => ne_of_length (by omega)
+    have n2 : f.len ≠ 5 → bodyOf f ≠ str "allow" := fun hh => ne_of_length (by omega)
+    have n3 : f.len ≠ 5 → bodyOf f ≠ str "audit" := fun hh => ne_of_length (by omega)
+    have n4 : f.len ≠ 5 → bodyOf f ≠ str "alarm" := fun hh => ne_of_length (by omega)
+    by_cases h4 : f.len = 4
+    · rw [if_pos h4, e1 h4]
+      have := n2 (by omega); have := n3 (by omega); have := n4 (by omega)
+      by_cases hm : bodyOf f = str "deny"
+      · rw [hm]; simp [lit_ne, lit_ne', bind, Except.bind, pure, Except.pure]
+      · simp [*, bind, Except.bind, pure, Except.pure]
+    by_cases h5 : f.len = 5
+    · rw [if_neg h4, if_pos h5, e2 h5, e3 h5, e4 h5]
+      have := n1 (by omega)
+      by_cases hm : bodyOf f = str "allow"
+      · rw [hm]; simp [lit_ne, lit_ne', bind, Except.bind, pure, Except.pure]
+      by_cases hm2 : bodyOf f = str "audit"
+      · rw [hm2]; simp [lit_ne, lit_ne', bind, Except.bind, pure, Except.pure]
+      by_cases hm3 : bodyOf f = str "alarm"
+      · rw [hm3]; simp [lit_ne, lit_ne', bind, Except.bind, pure, Except.pure]
+      · simp [*, bind, Except.bind, pure, Except.pure]
+    · have := n1 (by omega); have := n2 (by omega); have := n3 (by omega); have := n4 (by omega)
+      simp [*, pure, Except.pure]
+
+/-- `parseNfs4` on field bodies. -/
+def nfs4Core (wide : Bool) (b : Nat → List Ch) : PSpec :=
+  let tag := nfs4TagSpec (b 0)
+  if tag = 0 then .skip else
+  let ug := tag = tagUser ∨ tag = tagGroup
+  let n := if ug then 1 else 0
+  let name := if ug then b 1 else []
+  let id : Int := if ug then isintOr name (-1) else -1
+  let r1 := isNfs4Perms wide (b (1 + n)) 0
+  if ¬ r1.2 then .skip else
+  let r2 := isNfs4Flags wide (b (2 + n)) r1.1
+  if ¬ r2.2 then .skip else
+  let type := nfs4TypeSpec (b (3 + n))
+  if type = 0 then .skip else
+  .entry type r2.1 tag (isintOr (b (4 + n)) id) name
+
+theorem parseNfs4_spec (wide : Bool) (fs : List Field)
+    (hf : ∀ f ∈ fs, FieldOK wide f) (h0 : fs ≠ []) :
+    ∃ p, parseNfs4 wide fs = .ok p ∧
+      p.toSpec = nfs4Core wide (fun i => obody (fieldAt fs 6 i)) ∧ p.NameOK wide := by
+  obtain ⟨f0, hf0⟩ : ∃ f0, fieldAt fs 6 0 = some f0 := by
+    cases fs with
+    | nil => exact (h0 rfl).elim
+    | cons a t => exact ⟨a, by simp [fieldAt]⟩
+  have hall := fun i => fieldAt_ok hf 6 i
+  have hok0 : FieldOK wide f0 := by have := hall 0; rw [hf0] at this; exact this
+  have hb0 : obody (some f0) = bodyOf f0 := rfl
+  unfold parseNfs4 nfs4Core
+  simp only [hf0, bind, Except.bind, pure, Except.pure, nfs4Tag_ok hok0, hb0]
+  generalize nfs4TagSpec (bodyOf f0) = tag
+  by_cases ht0 : tag = 0
+  · simp [ht0, Parsed.toSpec, Parsed.NameOK]
+  simp only [ht0, if_false]
+  by_cases hug : tag = tagUser ∨ tag = tagGroup
+  · simp only [hug, if_true, fbody_ok (hall _), nfs4Type_ok (hall _)]
+    generalize hr1 : isNfs4Perms wide (obody (fieldAt fs 6 (1 + 1))) 0 = r1
+    obtain ⟨p1, ok1⟩ := r1
+    cases ok1 with
+    | false => simp [Parsed.toSpec, Parsed.NameOK]
+    | true =>
+      simp only [not_true_eq_false, if_false]
+      generalize hr2 : isNfs4Flags wide (obody (fieldAt fs 6 (2 + 1))) p1 = r2
+      obtain ⟨p2, ok2⟩ := r2
+      cases ok2 with
+      | false => simp [Parsed.toSpec, Parsed.NameOK]
+      | true =>
+        simp only [not_true_eq_false, if_false]
+        by_cases hty : nfs4TypeSpec (obody (fieldAt fs 6 (3 + 1))) = 0
+        · simp [hty, Parsed.toSpec, Parsed.NameOK]
+        · have := hall 1
+          simp [hty, Parsed.toSpec, Parsed.NameOK, this]
+  · simp only [hug, if_false, fbody_ok (hall _), nfs4Type_ok (hall _)]
+    generalize hr1 : isNfs4Perms wide (obody (fieldAt fs 6 (1 + 0))) 0 = r1
+    obtain ⟨p1, ok1⟩ := r1
+    cases ok1 with
+    | false => simp [Parsed.toSpec, Parsed.NameOK]
+    | true =>
+      simp only [not_true_eq_false, if_false]
+      generalize hr2 : isNfs4Flags wide (obody (fieldAt fs 6 (2 + 0))) p1 = r2
+      obtain ⟨p2, ok2⟩ := r2
+      cases ok2 with
+      | false => simp [Parsed.toSpec, Parsed.NameOK]
+      | true =>
+        simp only [not_true_eq_false, if_false]
+        by_cases hty : nfs4TypeSpec (obody (fieldAt fs 6 (3 + 0))) = 0
+        · simp [hty, Parsed.toSpec, Parsed.NameOK]
+        · simp [hty, Parsed.toSpec, Parsed.NameOK]
+
+
+/-- The body of the parser's `while` loop on field bodies; the comment test looks at the
+character `field[0].start` points to. -/
+def fieldsCore (wide : Bool) (fs : List Field) (wantType : Nat) : PSpec :=
+  if sepAt (fs.headD ⟨[], 0⟩).s = 35 then .comment
+  else if wantType ≠ typeNfs4 then
+    posixCore wide fs.length (fun i => obody (fieldAt fs 5 i)) wantType
+  else nfs4Core wide (fun i => obody (fieldAt fs 6 i))
+
+theorem parseFields_spec (wide : Bool) (fs : List Field) (wantType : Nat)
+    (hf : ∀ f ∈ fs, FieldOK wide f) (h0 : fs ≠ []) :
+    ∃ p, parseFields wide fs wantType = .ok p ∧ p.toSpec = fieldsCore wide fs wantType ∧
+      p.NameOK wide := by
+  match fs, h0 with
+  | f0 :: t, _ =>
+    have hok0 : FieldOK wide f0 := hf f0 (by simp)
+    unfold parseFields fieldsCore
+    have hrd : wide = true → rd f0.s 0 = .ok (sepAt f0.s) := by
+      intro hw
+      have := hok0.2 hw
+      match hs : f0.s, this with
+      | c :: r, _ => simp [rd, sepAt]
+    have key : ∀ c, c = sepAt f0.s →
+        ∃ p, (if c = 35 then pure .comment
+              else if wantType ≠ typeNfs4 then parsePosix wide (f0 :: t) wantType
+              else parseNfs4 wide (f0 :: t) : Except Fault Parsed) = .ok p ∧
+          p.toSpec = (if sepAt f0.s = 35 then .comment
+            else if wantType ≠ typeNfs4 then
+              posixCore wide (f0 :: t).length (fun i => obody (fieldAt (f0 :: t) 5 i)) wantType
+            else nfs4Core wide (fun i => obody (fieldAt (f0 :: t) 6 i))) ∧ p.NameOK wide := by
+      intro c hc; subst hc
+      by_cases h35 : sepAt f0.s = 35
+      · simp [h35, Parsed.toSpec, Parsed.NameOK, pure, Except.pure]
+      · simp only [h35, if_false]
+        by_cases hw : wantType ≠ typeNfs4
+        · simp only [hw, ne_eq, not_false_eq_true, if_true]
+          exact parsePosix_spec wide (f0 :: t) wantType hf (by simp)
+        · simp only [hw, if_false]
+          exact parseNfs4_spec wide (f0 :: t) hf (by simp)
+    cases wide with
+    | false =>
+      have := key _ rfl
+      simp only [List.getElem?_cons_zero, bind, Except.bind, pure, Except.pure, List.headD_cons,
+        Bool.false_eq_true, if_false] at this ⊢
+      exact this
+    | true =>
+      have := key _ rfl
+      simp only [List.getElem?_cons_zero, bind, Except.bind, pure, Except.pure, List.headD_cons,
+        if_true, hrd rfl] at this ⊢
+      exact this
+
+theorem nameOf_ok {wide : Bool} {o : Option Field} (h : OFieldOK wide o) :
+    nameOf wide o = .ok ((obody o).takeWhile (· ≠ 0)) := by
+  cases o with
+  | none => rfl
+  | some f =>
+    have h : FieldOK wide f := h
+    cases wide with
+    | false => simp [nameOf, bind, Except.bind, pure, Except.pure, body_ok h, obody]
+    | true =>
+      have := h.2 rfl
+      match hs : f.s, this with
+      | c :: r, _ => simp [nameOf, bind, Except.bind, pure, Except.pure, body_ok h, obody, hs, rd]
+
+/-! ### The parser never reads outside the text -/
+
+/-- A wide text pointer still has the terminating NUL ahead of it. -/
+def Term (wide : Bool) (r : List Ch) : Prop := wide = true → 0 ∈ r
+
+theorem scanFieldN_fst (r : List Ch) : (scanFieldN r).1 + (scanFieldN r).2.length = r.length := by
+  induction r with
+  | nil => simp [scanFieldN]
+  | cons c t ih => simp only [scanFieldN]; split <;> simp <;> omega
+
+theorem nextFieldN_fieldOK (r : List Ch) : FieldOK false (nextFieldN r).field := by
+  have := scanFieldN_fst (skipWsN r)
+  refine ⟨?_, fun h => by cases h⟩
+  simp only [nextFieldN]; omega
+
+theorem isWs_zero : isWs 0 = false := by decide
+
+theorem skipWsW_ok (r : List Ch) (h : 0 ∈ r) :
+    ∃ c t, skipWsW r = .ok (c :: t) ∧ isWs c = false ∧ 0 ∈ c :: t := by
+  induction r with
+  | nil => simp at h
+  | cons c t ih =>
+    simp only [skipWsW]
+    by_cases hw : isWs c = true
+    · have hc : c ≠ 0 := by intro h0; rw [h0, isWs_zero] at hw; cases hw
+      have : 0 ∈ t := by
+        rcases List.mem_cons.mp h with h | h
+        · exact (hc h.symm).elim
+        · exact h
+      simp only [hw, if_true]; exact ih this
+    · simp only [hw]
+      exact ⟨c, t, rfl, by simpa using hw, h⟩
+
+theorem scanW_ok (r : List Ch) (h : 0 ∈ r) :
+    ∃ b r2, scanW r = .ok (b, r2) ∧ 0 ∈ r2 ∧ r = b ++ r2 ∧ r2 ≠ [] := by
+  induction r with
+  | nil => simp at h
+  | cons c t ih =>
+    simp only [scanW]
+    by_cases hs : (c = 0 ∨ c = 44 ∨ c = 58 ∨ c = 10 ∨ c = 35)
+    · simp only [hs, if_true]
+      exact ⟨[], c :: t, rfl, h, rfl, by simp⟩
+    · have hc : c ≠ 0 := fun h0 => hs (Or.inl h0)
+      have : 0 ∈ t := by
+        rcases List.mem_cons.mp h with h | h
+        · exact (hc h.symm).elim
+        · exact h
+      obtain ⟨b, r2, he, h0, hcat, hne⟩ := ih this
+      simp only [hs, if_false, he]
+      exact ⟨c :: b, r2, rfl, h0, by simp [hcat], hne⟩
+
+theorem skipCommentW_ok (r : List Ch) (h : 0 ∈ r) :
+    ∃ r3, skipCommentW r = .ok r3 ∧ 0 ∈ r3 := by
+  induction r with
+  | nil => simp at h
+  | cons c t ih =>
+    simp only [skipCommentW]
+    by_cases hs : (c = 0 ∨ c = 44 ∨ c = 10)
+    · simp only [hs, if_true]; exact ⟨_, rfl, h⟩
+    · have hc : c ≠ 0 := fun h0 => hs (Or.inl h0)
+      have : 0 ∈ t := by
+        rcases List.mem_cons.mp h with h | h
+        · exact (hc h.symm).elim
+        · exact h
+      simp only [hs, if_false]; exact ih this
+
+theorem dropWhile_nil_all {α : Type} (p : α → Bool) (l : List α) (h : l.dropWhile p = []) :
+    ∀ x ∈ l, p x = true := by
+  induction l with
+  | nil => simp
+  | cons a t ih =>
+    simp only [List.dropWhile_cons] at h
+    split at h
+    · rename_i hp
+      intro x hx
+      rcases List.mem_cons.mp hx with hx | hx
+      · rw [hx]; exact hp
+      · exact ih h x hx
+    · cases h
+
+theorem trimEndW_ok (c : Ch) (b : List Ch) (hc : isWs c = false) :
+    ∃ n, trimEndW (c :: b) = .ok n ∧ n ≤ (c :: b).length := by
+  unfold trimEndW
+  have hne : (c :: b).reverse.dropWhile isWs ≠ [] := by
+    intro he
+    have := dropWhile_nil_all _ _ he c (by simp)
+    rw [hc] at this; cases this
+  have hle : ((c :: b).reverse.dropWhile isWs).length ≤ (c :: b).length := by
+    have := (List.dropWhile_sublist (l := (c :: b).reverse) isWs).length_le
+    simpa using this
+  match hd : (c :: b).reverse.dropWhile isWs, hne with
+  | x :: l, _ => exact ⟨_, rfl, by rw [hd] at hle; exact hle⟩
+
+theorem rd_cons (c : Ch) (t : List Ch) : rd (c :: t) 0 = .ok c := by simp [rd]
+
+theorem nextFieldW_ok (r : List Ch) (h : 0 ∈ r) :
+    ∃ nf, nextFieldW r = .ok nf ∧ 0 ∈ nf.rest ∧ FieldOK true nf.field := by
+  obtain ⟨c, t, h1, hc, h01⟩ := skipWsW_ok r h
+  obtain ⟨b, r2, h2, h02, hcat, hne2⟩ := scanW_ok (c :: t) h01
+  obtain ⟨x, r2', hr2⟩ : ∃ x r2', r2 = x :: r2' := by
+    cases r2 with
+    | nil => exact (hne2 rfl).elim
+    | cons x r2' => exact ⟨x, r2', rfl⟩
+  have htrim : ∃ n, (if b = [] then .ok 0 else trimEndW b : Except Fault Nat) = .ok n ∧ n ≤ b.length := by
+    cases b with
+    | nil => exact ⟨0, by simp, by simp⟩
+    | cons y b' =>
+      have : y = c := by simp at hcat; exact hcat.1.symm
+      subst this
+      obtain ⟨n, hn, hle⟩ := trimEndW_ok y b' hc
+      exact ⟨n, by simp [hn], hle⟩
+  obtain ⟨n, hn, hnle⟩ := htrim
+  have hcom : ∃ r3, (if x = 35 then skipCommentW r2 else .ok r2 : Except Fault (List Ch)) = .ok r3 ∧ 0 ∈ r3 := by
+    by_cases h35 : x = 35
+    · simp only [h35, if_true]; exact skipCommentW_ok r2 h02
+    · simp only [h35, if_false]; exact ⟨r2, rfl, h02⟩
+  obtain ⟨r3, h3, h03⟩ := hcom
+  obtain ⟨y, r3', hr3⟩ : ∃ y r3', r3 = y :: r3' := by
+    cases r3 with
+    | nil => simp at h03
+    | cons y r3' => exact ⟨y, r3', rfl⟩
+  refine ⟨{ field := ⟨c :: t, n⟩, sep := y, rest := if y ≠ 0 then r3.drop 1 else r3 }, ?_, ?_, ?_⟩
+  · unfold nextFieldW
+    simp only [h1, h2]
+    rw [hr2] at h3 ⊢
+    simp only [rd_cons, hn, h3, hr3]
+  · simp only
+    by_cases hy : y = 0
+    · simp only [hy, ne_eq, not_true_eq_false, if_false]; exact h03
+    · simp only [hy, ne_eq, not_false_eq_true, if_true, hr3, List.drop_one, List.tail_cons]
+      rw [hr3] at h03
+      rcases List.mem_cons.mp h03 with h | h
+      · exact (hy h.symm).elim
+      · exact h
+  · refine ⟨?_, fun _ => by simp⟩
+    have : (c :: t).length = b.length + r2.length := by rw [hcat]; simp
+    simp only; omega
+
+theorem nextField_ok (wide : Bool) (r : List Ch) (h : Term wide r) :
+    ∃ nf, nextField wide r = .ok nf ∧ Term wide nf.rest ∧ FieldOK wide nf.field := by
+  cases wide with
+  | false => exact ⟨nextFieldN r, rfl, (fun hw => by cases hw), nextFieldN_fieldOK r⟩
+  | true =>
+    obtain ⟨nf, h1, h2, h3⟩ := nextFieldW_ok r (h rfl)
+    exact ⟨nf, by simp [nextField, h1], fun _ => h2, h3⟩
+
+theorem splitEntry_ok (wide : Bool) (r : List Ch) (h : Term wide r) :
+    ∃ fs rest, splitEntry wide r = .ok (fs, rest) ∧ Term wide rest ∧
+      (∀ f ∈ fs, FieldOK wide f) ∧ fs ≠ [] := by
+  induction r using (measure List.length).wf.induction with
+  | _ r ih =>
+    obtain ⟨nf, hnf, hterm, hfok⟩ := nextField_ok wide r h
+    rw [splitEntry_eq, hnf]
+    by_cases hs : nf.sep = 58
+    · have hlt := nextField_sep wide r nf hnf (by simp [hs])
+      obtain ⟨fs, rest, he, ht, hall, hne⟩ := ih nf.rest hlt hterm
+      simp only [hs, if_true, he]
+      refine ⟨nf.field :: fs, rest, rfl, ht, ?_, by simp⟩
+      intro f hf
+      rcases List.mem_cons.mp hf with hf | hf
+      · rw [hf]; exact hfok
+      · exact hall f hf
+    · simp only [hs, if_false]
+      refine ⟨[nf.field], nf.rest, rfl, hterm, ?_, by simp⟩
+      intro f hf; simp at hf; rw [hf]; exact hfok
+
+/-- The parser loop finishes without reading outside the text, whatever the text is. -/
+theorem parseLoop_ok (wide : Bool) (wantType : Nat) (r : List Ch) (o : ParseOut) (h : Term wide r) :
+    ∃ o', parseLoop wide wantType r o = .ok o' := by
+  induction r using (measure List.length).wf.induction generalizing o with
+  | _ r ih =>
+    cases r with
+    | nil =>
+      rw [parseLoop_nil]
+      cases wide with
+      | false => exact ⟨o, rfl⟩
+      | true => have := h rfl; simp at this
+    | cons c t =>
+      rw [parseLoop_cons]
+      by_cases hc : c = 0
+      · simp only [hc, if_true]; exact ⟨o, rfl⟩
+      · simp only [hc, if_false]
+        obtain ⟨fs, rest, he, ht, hall, hne⟩ := splitEntry_ok wide (c :: t) h
+        have hlt := (splitEntry_rest wide (c :: t) fs rest he).2 c t rfl hc
+        simp only [he, loopStep]
+        obtain ⟨p, hp, _, hname⟩ := parseFields_spec wide fs wantType hall hne
+        rw [hp]
+        cases p with
+        | comment => exact ih rest hlt _ ht
+        | skip => exact ih rest hlt _ ht
+        | entry ty pm tg id nm =>
+          simp only [nameOf_ok (show OFieldOK wide nm from hname)]
+          split
+          · exact ⟨_, rfl⟩
+          · exact ih rest hlt _ ht
+
+theorem fromText_ok (wide : Bool) (acl : Acl) (text : List Ch) (wantType : Nat) :
+    ∃ o, fromText wide acl text wantType = .ok o := by
+  unfold fromText
+  simp only []
+  generalize (if wantType = typePosix1e then typeAccess else wantType) = wt
+  split
+  · apply parseLoop_ok
+    intro hw; simp [hw]
+  · exact ⟨_, rfl⟩
+
+
+/-! ### Skipped entries and the warning status -/
+
+theorem addEntry_status (acl : Acl) (ty pm tg : Nat) (id : Int) (nm : List Ch) :
+    (addEntry acl ty pm tg id nm).2 = .ok ∨ (addEntry acl ty pm tg id nm).2 = .failed := by
+  unfold addEntry
+  split
+  · exact Or.inl rfl
+  · split
+    · split <;> exact Or.inl rfl
+    · exact Or.inr rfl
+
+/-- Skipped entries and the returned status go together. -/
+def SkipInv (o : ParseOut) : Prop :=
+  (o.skipped > 0 → o.status ≠ .ok) ∧ (o.status = .warn → o.skipped > 0)
+
+theorem parseLoop_skipInv (wide : Bool) (wantType : Nat) (r : List Ch) (o o' : ParseOut)
+    (h : parseLoop wide wantType r o = .ok o') (hi : SkipInv o) (hst : o.status = .ok ∨ o.status = .warn) :
+    SkipInv o' := by
+  induction r using (measure List.length).wf.induction generalizing o with
+  | _ r ih =>
+    cases r with
+    | nil =>
+      rw [parseLoop_nil] at h
+      split at h
+      · cases h
+      · cases h; exact hi
+    | cons c t =>
+      rw [parseLoop_cons] at h
+      split at h
+      · cases h; exact hi
+      · rename_i hc
+        split at h
+        · cases h
+        · rename_i fs rest he
+          have hlt := (splitEntry_rest wide (c :: t) fs rest he).2 c t rfl hc
+          unfold loopStep at h
+          split at h
+          · cases h
+          · exact ih rest hlt o h hi hst
+          · refine ih rest hlt _ h ⟨fun _ => by simp, fun _ => by simp⟩ (Or.inr rfl)
+          · rename_i ty pm tg id nm _
+            split at h
+            · cases h
+            · rename_i nmv _
+              rcases addEntry_status o.acl ty pm tg id nmv with hs | hs
+              · simp only [hs, reduceCtorEq, or_self, if_false, ne_eq, not_true_eq_false] at h
+                exact ih rest hlt _ h hi hst
+              · simp only [hs, true_or, if_true] at h
+                cases h
+                refine ⟨fun _ => by simp, fun hh => by simp at hh⟩
+
 end LA.Acl
